@@ -19,7 +19,7 @@ RULE = ('generated histories of path_open/fd_write/fd_pwrite/fd_read/fd_pread/fd
 R_READ, R_WRITE, R_SEEK, R_TELL, R_FDSTAT, R_ADVISE, R_SYNC, R_FILESTAT_GET = 1 << 1, 1 << 6, 1 << 2, 1 << 5, 1 << 3, 1 << 7, 1 << 4, 1 << 21
 O_CREAT, O_DIRECTORY, O_EXCL, O_TRUNC = 1, 2, 4, 8
 F_APPEND, F_DSYNC, F_NONBLOCK, F_RSYNC, F_SYNC = 1, 2, 4, 8, 16
-ARENA = 65536 * 2
+ARENA = 65536 * 4  # the whole linear memory of the trampoline module is tracked
 OFFSETS = [0, 1, 7, 100, 999, 1000, 1001, 4096, 65536, (1 << 31) - 1, 1 << 31, (1 << 31) + 1, (1 << 32) - 1, 1 << 32, (1 << 32) + 1, (1 << 32) + 7,
            (1 << 32) + 4096, 1 << 33, 1 << 40, (1 << 63) - 1, 1 << 63, (1 << 64) - 1, (1 << 64) - 2]
 
@@ -103,6 +103,12 @@ class History:
                 a = base + (sum(segs) + 64 * n) - (pos - base) - L
                 pos += L + 10
             bufs.append((a, L))
+        # sometimes the last segment ends exactly on the last byte of linear memory, or is an empty segment at its end
+        if bufs and r.random() < 0.15:
+            a, L = bufs[-1]
+            L = min(L, 3000)
+            bufs[-1] = (ARENA - L, L)
+            shape += '+end-of-memory'
         raw = b''.join(a.to_bytes(4, 'little') + L.to_bytes(4, 'little') for a, L in bufs)
         self.g.poke(arr, raw)
         if not for_read:
